@@ -48,7 +48,8 @@ type xfCase struct {
 		Path []string `json:"path"`
 		Node xfNode   `json:"node"`
 	} `json:"tree"`
-	Contained bool `json:"contained"`
+	Contained bool     `json:"contained"`
+	Mp        []string `json:"mp"` // --path argument ("" = everything)
 }
 
 func (t xfTarget) str(w string) string {
@@ -215,10 +216,14 @@ func runExtractCase(carBin string, c *xfCase, base string, form int) (string, st
 	os.WriteFile(carPath, bs.carV1(roots), 0o644)
 	before := snapshotTree(w, filepath.Join(w, "out"))
 	beforeSand := snapshotTree(sand, w)
-	cmd := exec.Command(carBin, "extract", "-f", carPath, filepath.Join(w, "out"))
+	xargs := []string{"extract", "-f", carPath}
+	if len(c.Mp) > 0 {
+		xargs = append(xargs, "-p", strings.Join(c.Mp, "/"))
+	}
+	cmd := exec.Command(carBin, append(xargs, filepath.Join(w, "out"))...)
 	cmd.Dir = w
 	if form == 2 { // the output directory given as "."
-		cmd = exec.Command(carBin, "extract", "-f", carPath, ".")
+		cmd = exec.Command(carBin, append(xargs, ".")...)
 		cmd.Dir = filepath.Join(w, "out")
 	}
 	outb, err := cmd.CombinedOutput()
@@ -313,8 +318,11 @@ func runExtractReplay(args []string) int {
 				hs := fnv.New32a()
 				hs.Write([]byte(canon(c.Arch) + canon(c.Pre)))
 				for form := 0; form < 5; form++ {
-					if form == 1 && (len(c.Arch) < 2 || hasFroot(&c)) {
+					if form == 1 && (len(c.Arch) < 2 || hasFroot(&c) || len(c.Mp) > 0) {
 						continue
+					}
+					if form == 3 && len(c.Mp) > 0 {
+						continue // a lookup by name goes through the shard's hash positions, which the hand-made shard does not have
 					}
 					if form == 3 && !allHamt && hs.Sum32()%4 != 0 {
 						continue // HAMT-sharded encoding: every fourth archive (all of them with hamt=all)
